@@ -1486,8 +1486,14 @@ int NifFile::Save(std::ostream& file, const NifSaveOptions& options) {
 		NiOStream stream(&file, &hdr);
 		FinalizeData();
 
-		if (options.optimize)
+		if (options.optimize) {
+			uint32_t numBlocksBefore = hdr.GetNumBlocks();
 			Optimize();
+
+			// Strings of blocks that were just pruned don't belong into the header anymore
+			if (hdr.GetNumBlocks() != numBlocksBefore)
+				hdr.UpdateHeaderStrings(hasUnknown);
+		}
 
 		if (options.sortBlocks)
 			PrettySortBlocks();
